@@ -762,6 +762,10 @@ def esc_enum(model, rep):
                 for k in (1, 2, 3, 4, 6, 7):
                     cases.append(qq * k + '+x#')
                     cases.append('a' + qq * k + 'a' + qq * k)
+                    if k <= 3:
+                        # a backslash before a quote run (what ends a raw literal early), with and without code behind it
+                        for pre, post in (('\\', ''), ('\\', '+x#'), ('a\\', '+x#'), ('\\\\', '+x#'), ('a\\', 'a' + qq + '+open(1)#'), ('\\d', '+x#')):
+                            cases.append(pre + qq * k + post)
             for s_ in dict.fromkeys(cases):
                 if s_ == '':
                     continue
